@@ -255,6 +255,27 @@ fn record(cell: &Cell, rep: &mut Report) {
     for (sig, msg) in check(&run) {
         rep.violation(format!("stack:{}", sig), format!("{}: {}", cell.to_json(), msg), cell.to_json());
     }
+    // the same cell with a write level that is exactly full of recently read entries while the operation's
+    // maintenance fires: whatever the operation stores (a promoted copy, a populated or replaced value, a set/put) is
+    // still in the write cache when it returns
+    if cell.has_writer() && cell.contents[0] == 0 && cell.checker == 0 && cell.pop == 0 && !matches!(cell.op, MOp::Get | MOp::Touch) {
+        CROWDED_WRITER.with(|c| c.set(true));
+        let r2 = run_cell(cell);
+        CROWDED_WRITER.with(|c| c.set(false));
+        rep.evaluations += 1;
+        rep.states += 1;
+        rep.traces += 1;
+        rep.transitions += r2.trace.len() as u64;
+        rep.count("crowded_writer_cells", 1);
+        let mut seen = std::collections::BTreeSet::new();
+        for (sig, msg) in check(&r2) {
+            if seen.insert(sig.clone()) {
+                let mut case = cell.to_json();
+                case["crowded_writer"] = serde_json::json!(true);
+                rep.violation(format!("stack:{}", sig), format!("{} [write level full of read entries, maintenance firing]: {}", cell.to_json(), msg), case);
+            }
+        }
+    }
     // the same cell with the handle built before any of its directories existed
     if matches!(cell.op, MOp::Get | MOp::Touch | MOp::Ensure | MOp::Gou(_)) && cell.contents.iter().any(|&c| c != 0) && cell.checker == 0 {
         LATE_DIRS.with(|l| l.set(true));
@@ -467,7 +488,7 @@ pub fn run(_tier: Tier, shard: Shard, rep: &mut Report) {
     rep.rule = "full matrix: write side {none, plain, sharded(3)} x read-only list {[], [p], [s], [p,p], [p,s], [s,p], [s,s]} x \
         per-level content {nothing, A, B} (sharded levels: value in the primary or the secondary shard) x operation {get, touch, \
         set, put, set_temp_file, put_temp_file, ensure, get_or_update x {Accept, Promote, Replace}} x populate {value, NotFound, other error}, no \
-        checker, the lookup cells again with the handle built before any of its directories existed; \
+        checker, the writing cells again with the write level exactly full of recently read entries and maintenance firing; the lookup cells again with the handle built before any of its directories existed; \
         and the hit actions again with a byte-equality checker and populate {value of the first copy, other value, NotFound} (and, for every lookup cell with a later copy, the first copy's open failing with EACCES/EIO/EMFILE: the lookup must fail \
         rather than resolve further down the stack); oracle = stack-resolution reference model on result, judge arguments, populate arguments, per-level before/after \
         snapshots, trace (no level after the first hit is touched), temp-file and source residue. Plus: get_or_update with Replace racing with another writer of the same key (all \
